@@ -69,7 +69,8 @@ ASSUMPTIONS = [
     "non-ASCII text assigned to a String/Filename option (Tor takes UTF-8 there, txtorcon's control connection is "
     "ASCII): save() may fail locally (raise or errback) - then nothing may have been written, and every pending "
     "change is still 'changed since the last successful save': needs_save() stays True and the next save that can "
-    "be sent carries them all; if an implementation does send such a value the history ends, uncompared, counted",
+    "be sent carries them all; if an implementation does send such a value it must reach Tor unaltered (as is, or as "
+    "its UTF-8 bytes) - 'scalar options once with their validated value' - and the history ends there, counted",
     "cfg.B = cfg.A (the list object read from an option of the same type, possibly carrying A's unsaved in-place "
     "edits) is an assignment of that list's current content to B; afterwards A and B are independent; not "
     "generated while an assignment to A is pending",
@@ -543,7 +544,19 @@ class _Run(object):
             pipe.pump()
             sim.cancel_rejects()
             if sim.setconfs[s0:]:
-                # how non-ASCII bytes are to be encoded is not stated; a non-number sent for Tor to refuse is defensible
+                # Something was sent after all.  How non-ASCII text is to be encoded is not stated (UTF-8 bytes are
+                # accepted; this pipe shows them as their latin-1 reading) and a non-number sent for Tor to refuse is
+                # defensible - but whatever reaches Tor must be the value the view then reports
+                rec = sim.setconfs[s0]
+                grouped = cm.group_items(sim, rec["items"])[0] if rec["items"] is not None else {}
+                for m in unsendable:
+                    if m.unsendable or rec["items"] is None:
+                        continue
+                    ok_forms = (m.pending, m.pending.encode("utf-8").decode("latin-1"))
+                    vals = grouped.get(m.name)
+                    if vals is None or len(vals) != 1 or vals[0] not in ok_forms:
+                        res.bad("saved-value-differs-from-what-tor-got", "%s pending %r (view reads %r): %r carried %r; Tor now holds %r" % (
+                            m.name, m.pending, self.read(m)[1], rec["line"], vals, sim.get(m.name)))
                 res.excluded.append("unsendable-value-was-sent")
                 self.dead = True
                 return
@@ -1145,6 +1158,8 @@ def run(ctx):
 
 
 MUTANTS = [
+    ("non-ascii-replaced-on-the-wire", "txtorcon/torcontrolprotocol.py",
+     "cmd = cmd.encode('ascii')", "cmd = cmd.encode('ascii', 'replace')"),
     ("failure-while-building-setconf-drops-pending", "txtorcon/torconfig.py",
      "                value = self.parsers[real_name].parse(value)\n            self.config[real_name] = value",
      "                try:\n                    value = self.parsers[real_name].parse(value)\n"
